@@ -71,7 +71,7 @@ func c05GenEngineConc(r *verifh.Rng) []verifh.Section {
 }
 
 type c05Req struct {
-	gate    chan bool
+	gate    chan byte // how the handler ends (0 return, 's' panic string, 'e' panic error, 'g' Goexit)
 	entered chan struct{}
 	done    chan int
 }
@@ -98,8 +98,8 @@ func c05StartEngine(cfg verifh.Cfg) (func(op []string) string, func()) {
 				switch v := r.Context().Value(c05Key{}).(type) {
 				case *c05Req:
 					close(v.entered)
-					if <-v.gate {
-						panic("c05: handler panics")
+					if k := <-v.gate; k != 0 {
+						c5.Abort(k)
 					}
 				case [2]int:
 					global.Enter()
@@ -126,8 +126,12 @@ func c05StartEngine(cfg verifh.Cfg) (func(op []string) string, func()) {
 	}
 	running := make([][]*c05Req, routes)
 	launch := func(rt int) (*c05Req, string) {
-		rq := &c05Req{gate: make(chan bool), entered: make(chan struct{}), done: make(chan int, 1)}
-		go func() { rq.done <- serve(rt, rq) }()
+		rq := &c05Req{gate: make(chan byte), entered: make(chan struct{}), done: make(chan int, 1)}
+		go func() {
+			code := -2 // runtime.Goexit inside the handler: the goroutine ends, ServeHTTP never returns
+			defer func() { rq.done <- code }()
+			code = serve(rt, rq)
+		}()
 		select {
 		case <-rq.entered:
 			return rq, "ok"
@@ -140,11 +144,14 @@ func c05StartEngine(cfg verifh.Cfg) (func(op []string) string, func()) {
 			return nil, "stuck"
 		}
 	}
-	end := func(rq *c05Req, pan bool) string {
-		rq.gate <- pan
+	end := func(rq *c05Req, how byte) string {
+		rq.gate <- how
 		code := <-rq.done
+		pan := how == 's' || how == 'e'
 		switch {
-		case !pan && code == http.StatusOK:
+		case how == 0 && code == http.StatusOK:
+			return "ok"
+		case how == 'g' && code == -2: // Goexit runs the deferred Return (and RecoverHandler's recover() yields nil)
 			return "ok"
 		case pan && !rec && code == -1: // the panic leaves through the deferred Return of MaxConnsHandler
 			return "ok"
@@ -166,7 +173,7 @@ func c05StartEngine(cfg verifh.Cfg) (func(op []string) string, func()) {
 			k++
 		}
 		for _, rq := range rs {
-			end(rq, false)
+			end(rq, 0)
 		}
 		if k == probeMax {
 			return "free=unlimited"
@@ -191,7 +198,7 @@ func c05StartEngine(cfg verifh.Cfg) (func(op []string) string, func()) {
 			}
 			rq := running[rt][0]
 			running[rt] = running[rt][1:]
-			return end(rq, len(op) > 2 && op[2] == "panic")
+			return end(rq, c5.FinishKind(op[1:]))
 		case "probe":
 			return probe(rt)
 		case "run":
@@ -240,7 +247,7 @@ func c05StartEngine(cfg verifh.Cfg) (func(op []string) string, func()) {
 	return step, func() {
 		for _, rs := range running {
 			for _, rq := range rs {
-				end(rq, false)
+				end(rq, 0)
 			}
 		}
 	}
